@@ -75,6 +75,24 @@ BODIES = [
     ("subscript_of_result", "def m(x: int):\n    return ['m', R(t(1, str(x)))[0]]", (3,), None),
     ("in_dict_and_set", "def m(x: int):\n    return ['m', {R(t(1, 'a'))[1]: R(t(2, 'b'))}]", (3,), None),
     ("augmented", "def m(x: int):\n    acc = ['m']\n    acc += R(t(1, str(x)))\n    return acc", (3,), None),
+    ("slice_bounds", "def m(x: int):\n    data = 'abcdef'\n    return ['m', data[len(R(t(1, 'a'))) - 4:len(R(t(2, 'b'))) - 1]]", (3,), None),
+    ("chained_comparison", "def m(x: int):\n    return ['m', R(t(1, 'a')) < R(t(2, 'b')) < R(t(3, 'c'))]", (3,), None),
+    ("ternary_in_argument", "def m(x: int):\n    return ['m', R(t(1, 'a') if x > 2 else t(2, 'b'))]", (3,), None),
+    ("augmented_subscript", "def m(x: int):\n    d = {'s': 0}\n    d[R(t(1, 'a'))[0]] += len(R(t(2, 'bb')))\n    return ['m', d]", (3,), None),
+    ("with_statement", "def m(x: int):\n    import contextlib\n    with contextlib.nullcontext(R(t(1, 'a'))) as v:\n        return ['m', v, R(t(2, 'b'))]", (3,), None),
+    ("unpacking_target", "def m(x: int):\n    a, *b = R(t(1, 'a')), R(t(2, 'b')), R(t(3, 'c'))\n    return ['m', a, b]", (3,), None),
+    ("assert_and_del", "def m(x: int):\n    v = R(t(1, 'a'))\n    assert R(t(2, 'b')), 'never'\n    del v\n    return ['m']", (3,), None),
+    ("yield_from", "def m(x: int):\n    def gen():\n        yield from R(t(1, 'a'))\n    return ['m', list(gen())]", (3,), None),
+    ("nested_fstring_format", "def m(x: int):\n    return ['m', f'{R(t(1, str(x)))[0]!r:>{len(R(t(2, \'bb\')))}}']", (3,), None),
+    ("dict_comprehension", "def m(x: int):\n    return ['m', {i: R(t(i, str(i))) for i in range(2)}]", (3,), None),
+    ("nested_comprehension", "def m(x: int):\n    return ['m', [[R(t(i * 2 + j, str(j))) for j in range(2)] for i in range(2)]]", (3,), None),
+    ("default_argument_of_inner_lambda", "def m(x: int):\n    f = lambda z=R(t(1, 'a')): z\n    return ['m', f()]", (3,), None),
+    ("decorated_inner_def", "def m(x: int):\n    def deco(g):\n        return g\n    @deco\n    def inner(z=R(t(1, 'a'))):\n        return z\n    return ['m', inner()]", (3,), None),
+    ("class_body_inside", "def m(x: int):\n    class K:\n        v = R(t(1, 'a'))\n    return ['m', K.v]", (3,), "classbody"),
+    ("match_statement", "def m(x: int):\n    match R(t(1, 'a')):\n        case [tag, *rest]:\n            return ['m', tag, R(t(2, 'b'))]\n    return ['m']", (3,), None),
+    ("return_in_finally", "def m(x: int):\n    try:\n        raise ValueError\n    except ValueError:\n        return ['m', R(t(1, 'a'))]\n    finally:\n        TRACE.append('f')", (3,), None),
+    ("keyword_then_positional_mix", "def m(x: int, *, k: object = None):\n    return ['m', R(t(1, str(x)), k=R(t(2, 'inner')))]", (3,), None),
+    ("result_called", "def m(x: int):\n    return ['m', (lambda *a: a)(*R(t(1, 'a')))]", (3,), None),
     ("while_loop", "def m(x: int):\n    out = ['m']\n    i = 0\n    while i < 2:\n        out.append(R(t(i, str(i))))\n        i += 1\n    return out", (3,), None),
 ]
 
@@ -232,7 +250,7 @@ def main():
         for which in ("recurse", "call_next"):
             n += 1
             label = f"{name}:{which}"
-            tag = {None: "", "iterable": "known_iterable.", "star": "known_star.", "starkw": "known_starkw."}[pattern]
+            tag = {None: "", "iterable": "known_iterable.", "star": "known_star.", "starkw": "known_starkw.", "classbody": "known_classbody."}[pattern]
             if pattern == "star" and which == "recurse":
                 tag = ""  # recurse(*args) is left as a plain call of the function: supported
             try:
